@@ -92,6 +92,7 @@ let functions : (string * (val0 -> val0)) list = [
   ("sigset", sigset_run);
   ("ckpt", ckpt_run);
   ("sig", sig_run);
+  ("claim", claim_run);
 ]
 
 (* monitors: (property, suite) -> case -> implementation output -> list of violations *)
@@ -107,6 +108,7 @@ let monitors : ((string * string) * (val0 -> val0 -> val0)) list = [
   (("C09", "sigset"), mon_C09);
   (("C07", "ckpt"), mon_C07_ckpt);
   (("C07", "sig"), mon_C07_sig);
+  (("C14", "claim"), mon_C14);
 ]
 
 let first_diff (a : val0) (b : val0) : int =
